@@ -38,7 +38,7 @@ func structOf(v int64) TStruct {
 // keeps element boundaries itself, so such an encoder is legitimate.
 type RawStr struct{}
 
-func (RawStr) Encode(d interface{}) []byte          { return []byte(d.(string)) }
+func (RawStr) Encode(d interface{}) []byte        { return []byte(d.(string)) }
 func (RawStr) Decode(b []byte) (int, interface{}) { return len(b), string(b) }
 func (RawStr) GetSize(d interface{}) int          { return len(d.(string)) }
 func (RawStr) GetEncodedSize(b []byte) int        { return len(b) }
@@ -173,6 +173,28 @@ func (v *ValSpec) Slice() interface{} {
 		return s
 	}
 	panic("unknown kind " + v.Kind)
+}
+
+// FixedSize reports whether every value encodes to the same number of bytes
+// (what the historical layouts require).
+func (v *ValSpec) FixedSize() bool {
+	switch v.Kind {
+	case "none", "str16", "rawstr":
+		return false
+	}
+	return true
+}
+
+// Prefix returns a ValSpec holding the first n values (n <= Len()).
+func (v *ValSpec) Prefix(n int) *ValSpec {
+	o := &ValSpec{Kind: v.Kind, N: v.N}
+	if v.Ints != nil {
+		o.Ints = v.Ints[:n]
+	}
+	if v.Strs != nil {
+		o.Strs = v.Strs[:n]
+	}
+	return o
 }
 
 // At returns the typed value i as slim is expected to hand it back.
